@@ -226,6 +226,9 @@ def build(read):
     f, n5 = re.subn(r"\bglobal_bindings\.clone\(\)", "clone_bindings(&global_bindings)", f)
     b.edits.append(f"D5: run: {n3}x `\"..\".to_string()` -> str_to_string(..); {n4}x the function item `fns::print` -> fns::print_fn() (an opaque value); "
                    f"{n5}x `global_bindings.clone()` -> clone_bindings(&global_bindings) (assumed structural)")
+    f, nc = re.subn(r"\|(\w+)\|\s*(Error::\w+\s*\{[^{}|]*\})", r"|\1| -> (__r: Error) ensures __r == (\2) { \2 }", f)
+    if nc:
+        b.edits.append(f"annotation: {nc} closure(s) whose body is one `Error::Variant{{..}}` constructor get that expression as their postcondition")
     f, n6 = re.subn(r"\beval::eval_prog\(", "eval::eval_prog(log, ", f)
     if n6 == 0:
         raise Undecided("run: no call `eval::eval_prog(` found")
